@@ -69,6 +69,8 @@ class Ctx:
                 raise CheckError("extractor blind: universe %r below floors (config %s)" % (u, config))
             if v.prog.duplicate_keys:
                 self.notes.append("duplicate function keys in %s: %s" % (config, sorted(v.prog.duplicate_keys)))
+            if v.prog.alias_report:
+                self.notes.append("moved / renamed functions (config %s): %s" % (config, "; ".join(v.prog.alias_report)))
             r = v.prog.inline_report
             if r and (r["inlined"] or r["kept"] or r["skipped"]):
                 self.notes.append("new private helpers (config %s): %d call site(s) inlined %s; dropped after inlining %s; kept as functions %s; not inlined %s"
